@@ -16,7 +16,7 @@ FAULT_TEXT = {
     "tf_unclosed": ["translate(10,20", "rotate(30", "scale(2,3) translate(5"],
     "tf_unknown": ["frobnicate(3)", "rotate(", "translate", "spin(90) rotate(10"],
     "tf_few_numbers": ["matrix(1,2)", "rotate()", "translate()", "matrix(1 0 0 1 5)", "scale()", "skewX()"],
-    "tf_bad_unit": ["scale(2px)", "rotate(1em)", "skewX(3px)", "translate(1em, 2ex)", "matrix(1,0,0,1,5px,6px)"],
+    "tf_bad_unit": ["scale(2px)", "rotate(1em)", "skewX(3px)", "translate(1em, 2ex)", "matrix(1,0,0,1,5px,6px)", "translate(50%,50%)", "translate(1in, 25%) scale(2)"],
     "colour_bad": ["rgb(1,2", "#12", "notacolour(1)", "rgb(a,b,c)", "hsl(1,2,3)", "rgb(1.5.5,2,3)", "url(#nothing)", "rgb(1e999%,0%,0%)", "rgb(1e999,0,0)",
                    "rgba(1,2,3,1e999)", "hsl(1e999,50%,50%)", "rgb(nan,0,0)", "#"],
     "style_garbage": ["fill:;:;;stroke", ";;;", "fill:rgb(1,2;stroke-width:abc", "stroke-width:1em;transform:rotate(", "fill:red:blue", ":::",
